@@ -51,3 +51,10 @@ for line in log:
                   "properties": props or [], "kind": "defect fixed in /repo returns"})
 json.dump(index, open("/verif/mutants/index.json", "w"), indent=1)
 print(len(index), "reverts;", sum(1 for i in index if not i["properties"]), "unmapped:", [i["subject"][:50] for i in index if not i["properties"]])
+
+# refresh the `fixed` records of known_findings.json from the same commits (one line per fix commit; informational: a fixed
+# entry suppresses nothing)
+kp = "/verif/known_findings.json"
+k = json.load(open(kp))
+k["fixed"] = ["fixed: property=%s %s %s" % ((i["properties"] or ["?"])[0], i["commit"], i["subject"][5:]) for i in index]
+json.dump(k, open(kp, "w"), indent=1)
